@@ -138,7 +138,7 @@ def run_c09(tier):
         case = {"args": ["metadata", repr(v)]}
         expect_exc("load_entity_schema/ill-typed-version", _call(index.load_entity_schema, "metadata", v, EntityType.request), index.UnknownEntity, case, (repr(v),))
         expect_exc("load_request_schema/ill-typed-version", _call(index.load_request_schema, 3, v), index.UnknownEntity, case, (repr(v),))
-    # 3c. histories: every sequence up to length 3 over valid and invalid lookups (the same one repeated included);
+    # 3c. histories: every sequence up to length 4 over valid and invalid lookups (the same one repeated included);
     # each call is judged by its own arguments, whatever was looked up before
     import itertools
 
@@ -154,7 +154,7 @@ def run_c09(tier):
         (index.load_response_schema, (999, 0), index.UnknownAPIKey),
     ]
     nseq = 0
-    for d in (1, 2, 3):
+    for d in (1, 2, 3, 4):
         for seq in itertools.product(range(len(letters)), repeat=d):
             nseq += 1
             for step, li in enumerate(seq):
